@@ -5,14 +5,16 @@ Import ListNotations.
 
 Definition disjoint (a b : list loc) : Prop := forall x, In x a -> In x b -> False.
 
-(* own H t v f : in heap H the value v denotes the immutable tree t, the child lists it
-   reaches are exactly the locations f, and no location is reached twice (no sharing). *)
+(* own H t v f : in heap H the value v denotes the immutable tree t (metas included), the child
+   lists and Meta objects it reaches are exactly the locations f, and no location is reached
+   twice (no sharing). *)
 Inductive own (H : heap) : ptree -> value -> list loc -> Prop :=
 | own_tok a b : own H (PTok a b) (VTok a b) []
 | own_none : own H PNone VNone []
-| own_node d l vs ts fp :
-    nth_error H l = Some vs -> owns H ts vs fp -> ~ In l fp ->
-    own H (PNode d ts) (VTree d l) (l :: fp)
+| own_node d l m vs mt ts fp :
+    nth_error H l = Some (CList vs) -> nth_error H m = Some (CMeta mt) ->
+    owns H ts vs fp -> ~ In l fp -> ~ In m fp -> l <> m ->
+    own H (PNode d mt ts) (VTree d l m) (l :: m :: fp)
 with owns (H : heap) : list ptree -> list value -> list loc -> Prop :=
 | owns_nil : owns H [] [] []
 | owns_cons t ts v vs f fs :
@@ -51,8 +53,12 @@ Proof.
   - intros [h1 h2] y [<-|hy] hc; [auto|eapply h2; eauto].
 Qed.
 
-Lemma hget_nth H l vs : nth_error H l = Some vs -> hget H l = vs.
-Proof. unfold hget. revert l. induction H; destruct l; simpl; try discriminate; auto. congruence. Qed.
+Lemma hget_nth H l vs : nth_error H l = Some (CList vs) -> hget H l = vs.
+Proof. unfold hget. intros ->. auto. Qed.
+Lemma mget_nth H m mt : nth_error H m = Some (CMeta mt) -> mget H m = mt.
+Proof. unfold mget. intros ->. auto. Qed.
+Lemma lget_nth H l n : nth_error H l = Some (CLex n) -> lget H l = n.
+Proof. unfold lget. intros ->. auto. Qed.
 
 Lemma hset_length H l vs : length (hset H l vs) = length H.
 Proof. revert l. induction H; destruct l; simpl; auto. Qed.
@@ -72,14 +78,14 @@ Proof. intros h. apply nth_error_Some. congruence. Qed.
 (* ------------------------------------------------------------------ own: basic facts *)
 Ltac own_induction :=
   apply own_owns_ind;
-  [ intros a b | | intros d l vs ts fp Hnth Hos IHos Hni | | intros t ts v vs f fs Ho IHo Hos IHos Hdj ].
+  [ intros a b | | intros d l m vs mt ts fp Hnth Hmth Hos IHos Hni Hmi Hlm | | intros t ts v vs f fs Ho IHo Hos IHos Hdj ].
 
 Lemma own_bound_both H :
   (forall t v f, own H t v f -> forall l, In l f -> l < length H) /\
   (forall ts vs f, owns H ts vs f -> forall l, In l f -> l < length H).
 Proof.
   own_induction; simpl; intros; try tauto.
-  - destruct H0 as [<-|h]; [eapply nth_error_lt; eauto|auto].
+  - destruct H0 as [<-|[<-|h]]; [eapply nth_error_lt; eauto|eapply nth_error_lt; eauto|auto].
   - apply in_app_or in H0. destruct H0; auto.
 Qed.
 Definition own_bound H := proj1 (own_bound_both H).
@@ -91,6 +97,7 @@ Lemma own_frame_both H :
 Proof.
   own_induction; intros H' hf; try (constructor; fail).
   - apply own_node with (vs := vs); auto.
+    + rewrite hf; simpl; auto.
     + rewrite hf; simpl; auto.
     + apply IHos. intros; apply hf; simpl; auto.
   - constructor; auto.
@@ -110,7 +117,10 @@ Qed.
 Lemma own_nodup_both H :
   (forall t v f, own H t v f -> NoDup f) /\ (forall ts vs f, owns H ts vs f -> NoDup f).
 Proof.
-  own_induction; try constructor; auto. apply nodup_app_disjoint; auto.
+  own_induction; try constructor; auto.
+  - simpl. intros [h|h]; auto.
+  - constructor; auto.
+  - apply nodup_app_disjoint; auto.
 Qed.
 Definition own_nodup H := proj1 (own_nodup_both H).
 Definition owns_nodup H := proj2 (own_nodup_both H).
@@ -178,7 +188,7 @@ Lemma read_own_both H :
   (forall ts vs f, owns H ts vs f -> forall k, length f < k -> map (read k H) vs = ts).
 Proof.
   own_induction; intros k hk; simpl; auto; try (destruct k; reflexivity).
-  - destruct k; simpl in *; [lia|]. rewrite (hget_nth _ _ _ Hnth). rewrite IHos; auto. lia.
+  - destruct k; simpl in *; [lia|]. rewrite (hget_nth _ _ _ Hnth), (mget_nth _ _ _ Hmth). rewrite IHos; auto. lia.
   - rewrite app_length in hk. rewrite IHo, IHos; auto; lia.
 
 Qed.
@@ -188,13 +198,15 @@ Definition reads_own H := proj2 (read_own_both H).
 (* ------------------------------------------------------------------ deepcopy *)
 Definition fresh_above (n : nat) (f : list loc) : Prop := forall l, In l f -> n <= l.
 
-Lemma dcopy_unfold k H d l :
-  dcopy (S k) H (VTree d l) =
-  let (H1, vs') := dcopys k H (hget H l) in (H1 ++ [vs'], VTree d (length H1)).
+Lemma dcopy_unfold cm k H d l m :
+  dcopy cm (S k) H (VTree d l m) =
+  let (H1, vs') := dcopys cm k H (hget H l) in
+  if cm then (H1 ++ [CList vs'; CMeta (mget H1 m)], VTree d (length H1) (S (length H1)))
+  else (H1 ++ [CList vs'], VTree d (length H1) m).
 Proof.
   simpl. generalize (hget H l). intros vs.
   match goal with |- (let (_, _) := ?a in _) = (let (_, _) := ?b in _) => assert (a = b) as -> end; auto.
-  revert H. induction vs; simpl; auto. intros. destruct (dcopy k H a). rewrite IHvs. auto.
+  revert H. induction vs; simpl; auto. intros. destruct (dcopy cm k H a). rewrite IHvs. auto.
 Qed.
 
 Lemma own_extend H t v f ext : own H t v f -> own (H ++ ext) t v f.
@@ -206,16 +218,17 @@ Proof.
   intros h. eapply owns_frame; eauto. intros l hl. apply nth_error_app1. eapply owns_bound; eauto.
 Qed.
 
-(* What the proofs use of copy.deepcopy: the copy denotes the same trees, lives entirely in
-   new locations, and the old heap is a prefix of the new one (nothing existing is written). *)
+(* What the proofs use of copy.deepcopy (as repaired: Meta objects are copied too): the copy denotes
+   the same trees with the same metas, lives entirely in new locations, and the old heap is a
+   prefix of the new one (nothing existing is written). *)
 Lemma dcopy_spec_both H0 :
   (forall t v f, own H0 t v f -> forall k ext, length f < k ->
-     exists ext' f', fst (dcopy k (H0 ++ ext) v) = (H0 ++ ext) ++ ext' /\
-                     own ((H0 ++ ext) ++ ext') t (snd (dcopy k (H0 ++ ext) v)) f' /\
+     exists ext' f', fst (dcopy true k (H0 ++ ext) v) = (H0 ++ ext) ++ ext' /\
+                     own ((H0 ++ ext) ++ ext') t (snd (dcopy true k (H0 ++ ext) v)) f' /\
                      fresh_above (length (H0 ++ ext)) f') /\
   (forall ts vs f, owns H0 ts vs f -> forall k ext, length f < k ->
-     exists ext' f', fst (dcopys k (H0 ++ ext) vs) = (H0 ++ ext) ++ ext' /\
-                     owns ((H0 ++ ext) ++ ext') ts (snd (dcopys k (H0 ++ ext) vs)) f' /\
+     exists ext' f', fst (dcopys true k (H0 ++ ext) vs) = (H0 ++ ext) ++ ext' /\
+                     owns ((H0 ++ ext) ++ ext') ts (snd (dcopys true k (H0 ++ ext) vs)) f' /\
                      fresh_above (length (H0 ++ ext)) f').
 Proof.
   own_induction; intros k ext hk.
@@ -227,21 +240,28 @@ Proof.
     { apply hget_nth. rewrite nth_error_app1; auto. eapply nth_error_lt; eauto. }
     rewrite hg.
     destruct (IHos k ext ltac:(lia)) as (e1 & f' & a1 & o1 & fr).
-    destruct (dcopys k (H0 ++ ext) vs) as [H1' vs'] eqn:E. simpl in *. subst H1'.
-    exists (e1 ++ [vs']), (length ((H0 ++ ext) ++ e1) :: f'). repeat split.
+    destruct (dcopys true k (H0 ++ ext) vs) as [H1' vs'] eqn:E. simpl in *. subst H1'.
+    assert (hm : mget ((H0 ++ ext) ++ e1) m = mt).
+    { apply mget_nth. rewrite <- app_assoc. rewrite nth_error_app1; auto. eapply nth_error_lt; eauto. }
+    rewrite hm.
+    set (n := length ((H0 ++ ext) ++ e1)).
+    exists (e1 ++ [CList vs'; CMeta mt]), (n :: S n :: f'). repeat split.
     + rewrite app_assoc. auto.
     + rewrite app_assoc. apply own_node with (vs := vs').
-      * rewrite nth_error_app2, Nat.sub_diag; simpl; auto.
+      * unfold n. rewrite nth_error_app2, Nat.sub_diag; simpl; auto.
+      * unfold n. rewrite nth_error_app2 by lia. replace (S _ - _) with 1 by lia. simpl; auto.
       * apply owns_extend; auto.
-      * intros hi. apply (owns_bound _ _ _ _ o1) in hi. lia.
-    + intros x [<-|hx]; [repeat rewrite app_length; lia|auto].
+      * intros hi. apply (owns_bound _ _ _ _ o1) in hi. unfold n in hi. lia.
+      * intros hi. apply (owns_bound _ _ _ _ o1) in hi. unfold n in hi. lia.
+      * lia.
+    + intros x [<-|[<-|hx]]; [unfold n; repeat rewrite app_length; lia|unfold n; repeat rewrite app_length; lia|auto].
   - exists [], []. simpl. rewrite app_nil_r. repeat split; try constructor. intros ? [].
   - rewrite app_length in hk. simpl.
     destruct (IHo k ext ltac:(lia)) as (e1 & f1 & a1 & o1 & fr1).
-    destruct (dcopy k (H0 ++ ext) v) as [H1 x'] eqn:E1. simpl in *. subst H1.
+    destruct (dcopy true k (H0 ++ ext) v) as [H1 x'] eqn:E1. simpl in *. subst H1.
     destruct (IHos k (ext ++ e1) ltac:(lia)) as (e2 & f2 & a2 & o2 & fr2).
     rewrite app_assoc in a2, o2, fr2.
-    destruct (dcopys k ((H0 ++ ext) ++ e1) vs) as [H2 xs'] eqn:E2. simpl in *. subst H2.
+    destruct (dcopys true k ((H0 ++ ext) ++ e1) vs) as [H2 xs'] eqn:E2. simpl in *. subst H2.
     exists (e1 ++ e2), (f1 ++ f2). rewrite app_assoc. repeat split; auto.
     + constructor; auto.
       * apply own_extend; auto.
@@ -251,7 +271,7 @@ Proof.
 Qed.
 
 Lemma deepcopy_spec H ts vs f : owns H ts vs f ->
-  exists ext f', fst (deepcopy H vs) = H ++ ext /\ owns (H ++ ext) ts (snd (deepcopy H vs)) f' /\
+  exists ext f', fst (deepcopy true H vs) = H ++ ext /\ owns (H ++ ext) ts (snd (deepcopy true H vs)) f' /\
                  fresh_above (length H) f'.
 Proof.
   intros h. unfold deepcopy.
